@@ -152,3 +152,67 @@ func VerifC14_LateReply() {
 	verifAssert(p.outstanding() == 0, "C14: no pending transaction is left behind")
 	verifReach("end")
 }
+
+// Traversal owners: Bootstrap when no starting node is available (resolver error, or an empty list
+// with an empty table): it returns an error, and - engine verdict at the end of the path - leaves no
+// goroutine behind.
+func VerifC14_BootstrapCannotStart() {
+	v := verifStartServer(verifSrvOpt{noSecurity: true})
+	if verifNondetBool() {
+		v.s.config.StartingNodes = func() ([]Addr, error) { return nil, verifErr{"resolver failed"} }
+	} else {
+		v.s.config.StartingNodes = func() ([]Addr, error) { return nil, nil }
+	}
+	_, err := v.s.Bootstrap()
+	verifAssert(err != nil, "C14: Bootstrap without any starting node fails")
+	verifAssert(v.sock.attempts == 0, "C14: ... without sending anything")
+	verifQuiesce()
+	// a second attempt is possible (the first one released the bootstrapping flag)
+	_, err = v.s.Bootstrap()
+	verifAssert(err != nil, "C14: and can be retried")
+	verifReach("end")
+}
+
+// Bootstrap against one node that answers (or not): it returns once the lookup stalls, or with the
+// context's error when cancelled first; nothing is left behind.
+func VerifC14_Bootstrap() {
+	verifLimiterAlwaysGrants()
+	v := verifStartServer(verifSrvOpt{noSecurity: true, concreteID: true})
+	verifFreezeClock(true)
+	remote := verifC07Addrs[0]
+	v.s.config.StartingNodes = func() ([]Addr, error) { return []Addr{NewAddr(remote)}, nil }
+	ctx, cancel := context.WithCancel(context.Background())
+	defer cancel()
+	done := false
+	var berr error
+	go func() {
+		_, berr = v.s.BootstrapContext(ctx)
+		done = true
+	}()
+	verifQuiesce()
+	answers := verifNondetBool()
+	switch {
+	case verifNondetBool():
+		cancel()
+		verifQuiesce()
+		verifAssert(done && errors.Is(berr, context.Canceled), "C14: a cancelled Bootstrap returns the context's error")
+		verifReach("cancelled")
+	case answers && len(v.sock.sent) > 0:
+		w := v.sock.sent[0]
+		verifAssert(w.msg.Q == "find_node", "C14: Bootstrap sends find_node")
+		v.sock.deliver(verifEncode(krpc.Msg{Y: "r", T: w.msg.T, R: &krpc.Return{ID: verifConcreteIDInBucket(v.id, 3, 1)}}, 60), remote)
+		verifAssert(done && berr == nil, "C14: Bootstrap returns once its lookup has stalled")
+		verifReach("answered")
+	}
+	for i := 0; i < 4 && !done; i++ {
+		verifFireTimers()
+		verifQuiesce()
+	}
+	verifAssert(done, "C14: Bootstrap returns")
+	// let whatever is still in flight run into its time-out: nothing may stay blocked
+	for i := 0; i < 4 && verifFireTimers() > 0; i++ {
+		verifQuiesce()
+	}
+	verifAssert(v.s.Stats().OutstandingTransactions == 0, "C14: no pending transaction is left behind")
+	verifReach("end")
+}
